@@ -239,6 +239,7 @@ func (x *Exec) applyExternal(call *ast.CallExpr, fn *types.Func, eff effect, rec
 			x.extResultFacts(st, fn, i, v, rt)
 			out = append(out, v)
 		}
+		x.noteLastErr(st, fn, out)
 		return out
 	}
 	// unknown: havoc everything reachable (coarse, sound)
@@ -251,6 +252,20 @@ func (x *Exec) applyExternal(call *ast.CallExpr, fn *types.Func, eff effect, rec
 		out = append(out, v)
 	}
 	return out
+}
+
+// noteLastErr remembers the error result of the latest call of an external (lastErr("Name")).
+func (x *Exec) noteLastErr(st *State, fn *types.Func, out []Term) {
+	sig := fn.Type().(*types.Signature)
+	n := sig.Results().Len()
+	if n == 0 || len(out) != n || sig.Results().At(n-1).Type().String() != "error" {
+		return
+	}
+	if st.ghost == nil {
+		st.ghost = map[string]Term{}
+	}
+	st.ghost["lasterr:"+fn.Name()] = out[n-1]
+	st.ghost["lasterr:"+extName(fn)] = out[n-1]
 }
 
 // extResultFacts: type invariants of external results.
